@@ -643,6 +643,7 @@ primaryexpr(struct scope *s)
 	struct type *t;
 	char *src, *end;
 	uint_least32_t chr;
+	bool hexoct;
 	int base;
 
 	switch (tok.kind) {
@@ -675,8 +676,12 @@ primaryexpr(struct scope *s)
 		}
 		assert(*src == '\'');
 		++src;
-		src += decodechar(src, &chr, NULL, "character constant", &tok.loc);
+		hexoct = false;
+		src += decodechar(src, &chr, &hexoct, "character constant", &tok.loc);
 		e = mkconstexpr(t, chr);
+		/* an unprefixed constant has the value of a char converted to int (C11 6.4.4.4p10) */
+		if (tok.lit[0] == '\'' && hexoct && typechar.u.basic.issigned && chr - 0x80 < 0x80)
+			e->u.constant.u = chr - 0x100ull;
 		if (*src != '\'')
 			error(&tok.loc, "character constant contains more than one character: %c", *src);
 		next();
